@@ -175,6 +175,12 @@ def check_case(case):
         outs.add(run_one(res, spec, None, None, None, "settings"))
         res.nontrivial = 1
         return res
+    if fam == "muxneg":   # a multi-input mux whose per-input resistances are written with a negative sign: still a passive element
+        from ..muxsys import mux_spec
+        spec = mux_spec([tuple(x) for x in case["inputs"]], case["pal"], "neg", below="std")
+        o = run_one(res, spec, None, None, None, "muxneg")
+        res.nontrivial = 1
+        return res
     if fam == "huge":   # healthy systems at extreme magnitudes (megavolts / mega-amps, micro-ohms): a steady state with a 0.1 % drop exists and must be found
         V, I = case["V"], case["I"]
         spec = dict(name="huge", phases=None, comps=[
@@ -220,9 +226,10 @@ def check_case(case):
                 if c["n"].startswith("ILp") and dd0[dd0[c["n"]]["parents"][0]]["k"] in PHASE_LIST_KINDS and dd0[c["n"]]["parents"][0] != "S":
                     assign[c["n"]] = {"a": assign[c["n"]]["a"], "b": 1.0}
                     assign[dd0[c["n"]]["parents"][0]] = ["a"]
-        spec = with_phases(spec, PH2, assign)
+        PHX = PH2 if not case.get("ph3") else {"a": 1.0, "b": 3.0, "c": 3.0}   # ph3: phases b and c are electrically identical (sleep values)
+        spec = with_phases(spec, PHX, assign)
         ok = True
-        for ph in PH2:
+        for ph in PHX:
             v, i, io, conv, maxdrop = refsolve(spec, ph)
             ok = ok and conv and maxdrop <= 0.2 and all(math.isfinite(x) for x in v.values())
         if ok:
@@ -335,6 +342,12 @@ def gen_cases(tier):
                     yield dict(fam="livep", f=f, pal=pal, pol=1, srs=0.0)
                     if "ILp" in str(f) and n >= 2:
                         yield dict(fam="livep", f=f, pal=pal, pol=1, srs=0.0, offheavy=True)
+                    if n <= 2:
+                        yield dict(fam="livep", f=f, pal=pal, pol=1, srs=0.0, ph3=True)
+        from ..muxsys import INPUT_OPTS
+        import itertools as _it
+        for inputs in _it.product(INPUT_OPTS[:7], repeat=2):
+            yield dict(fam="muxneg", inputs=[list(x) for x in inputs], pal=pal, pol=1, srs=0.0)
         for n in ((1, 2, 3) if tier == "quick" or pal != sd % 3 else (1, 2, 3, 4)):
             for f in mid.iter_forests(n):
                 yield dict(fam="live", f=f, pal=pal, pol=1, srs=0.37)
